@@ -1,5 +1,5 @@
 (* Bridge (property C06): what the source says now is what the hand-written model assumes. *)
-From Coq Require Import List NArith Bool.
+From Coq Require Import List NArith ZArith Bool.
 From PV Require Import Gen.PhoutGen Model.Phout Model.Shutdown Proofs.ShutdownProofs.
 Import ListNotations.
 Local Open Scope N_scope.
@@ -16,7 +16,22 @@ Proof. split; reflexivity. Qed.
 Lemma cli_waits_bridge : cli_waits = true.
 Proof. reflexivity. Qed.
 
+(* failed-run branch: pandora.Wait() before the final log.Fatal; the time budgets are the
+   documented 3 s (failed run, SIGTERM) and 30 s (SIGINT), as time.Duration values in ns *)
+Lemma cli_failed_waits_bridge : cli_failed_waits = true.
+Proof. reflexivity. Qed.
+
+Lemma cli_timeouts_bridge :
+  gen_cli_await_timeout_ns = await_timeout_ns /\ gen_cli_sigterm_timeout_ns = sigterm_timeout_ns
+  /\ gen_cli_sigint_timeout_ns = sigint_timeout_ns.
+Proof. repeat split; reflexivity. Qed.
+
+(* engine.go: runCancel() (the aggregator's context) is called in checkAllInstancesAreFinished
+   and nowhere else - the only place the pool model sets run_cancelled without an outside cancel *)
+Lemma run_cancel_bridge : gen_run_cancel_only_in_check = true.
+Proof. reflexivity. Qed.
+
 Lemma signal_flush_now : forall pools h s r,
-  crun cli_waits (proc_init pools) h = Some s -> exited s = Some r -> orderly r = true ->
+  crun cli_waits cli_failed_waits (proc_init pools) h = Some s -> exited s = Some r -> orderly r = true ->
   all_true (aggr_closed s) = true.
-Proof. rewrite cli_waits_bridge. exact signal_flush_waiting. Qed.
+Proof. rewrite cli_waits_bridge, cli_failed_waits_bridge. exact signal_flush_waiting. Qed.
